@@ -1,10 +1,20 @@
-"""Native falsifier: random search of the real function's input space with the failed clause as
-oracle (used when a counter-model does not concretise).  Seeded by VERIF_SEED."""
+"""Native falsifier: search of the real function's input space with the unit's own clauses as
+oracle.  Two modes, both seeded by VERIF_SEED and both running the *real* function under CPython:
+
+ * falsify(unit, ob): perturb the integers / booleans of the solver's counter-model (used when the
+   counter-model itself does not concretise);
+ * falsify_typed(unit, prop): type-directed random inputs for units whose parameters are plain
+   values (ints, strings, header lists ...).  Every postcondition of the unit that is tagged with
+   the property is evaluated concretely on the real result.  Used when the failed obligation has no
+   usable model (a loop invariant that is no longer defined, a solver `unknown`): a hit is a real
+   failing input, a miss proves nothing and is reported as such.
+"""
 from __future__ import annotations
 
+import ast
 import os
 import random
-from typing import Any, Dict
+from typing import Any, Dict, List, Optional
 
 from .replay import CannotReplay, native_replay
 
@@ -32,3 +42,146 @@ def falsify(unit: str, ob, tries: int = 300) -> Dict[str, Any]:
             out["tries"] = i + 1
             return out
     return {"clause_violated": False, "tries": tries, "last": last}
+
+
+# ------------------------------------------------------------------------------------------------
+class Gen:
+    """type-directed random values; string material is taken from the literals of the function"""
+
+    def __init__(self, rng: random.Random, literals: List[Any]):
+        self.rng = rng
+        self.strs = sorted({x for x in literals if isinstance(x, str) and len(x) < 40}) or ["a"]
+        self.bstrs = sorted({x for x in literals if isinstance(x, bytes) and len(x) < 40}) or [b"a"]
+        self.ints = sorted({x for x in literals if isinstance(x, int) and not isinstance(x, bool)} | {0, 1, 2, 3})
+        self.shared: List[bytes] = []  # byte strings already generated for this input (reused as names)
+
+    def text(self, pool: List[str]) -> str:
+        r = self.rng
+        parts = []
+        for _ in range(r.choice([0, 1, 1, 2, 3, 4])):
+            parts.append(r.choice(pool + ["a", "b", "x1", " ", ",", ", ", "A", "10.0.0.1", "=", ";"]))
+        s = "".join(parts)
+        if r.random() < 0.2:
+            s = s.upper()
+        return s
+
+    def value(self, ty: str, name: str = "") -> Any:
+        from .rules import TYPE_ALIASES, _split_top
+
+        r = self.rng
+        ty = TYPE_ALIASES.get(ty.strip(), ty.strip())
+        alts = _split_top(ty, "|")
+        if len(alts) > 1:
+            return self.value(r.choice(alts), name)
+        if ty in ("int", "nat"):
+            return r.choice(self.ints + [r.randrange(0, 6)])
+        if ty == "bool":
+            return r.random() < 0.5
+        if ty == "str":
+            return self.text(self.strs)
+        if ty == "bstr":
+            if self.shared and r.random() < 0.5:
+                b = r.choice(self.shared)
+                return b.upper() if r.random() < 0.2 else b
+            b = self.text([x.decode("latin-1") for x in self.bstrs]).encode("latin-1")
+            self.shared.append(b)
+            return b
+        if ty == "none":
+            return None
+        if ty.startswith("opt "):
+            return None if r.random() < 0.3 else self.value(ty[4:], name)
+        if ty == "hdrs":
+            return [(self.value("bstr"), self.value("bstr")) for _ in range(r.choice([0, 1, 2, 2, 3, 4]))]
+        if ty in ("strs", "bstrs"):
+            return [self.value(ty[:-1]) for _ in range(r.choice([0, 1, 2, 3]))]
+        if ty.startswith("const "):
+            return eval(ty[6:], {"__builtins__": {}}, {})
+        raise CannotReplay(f"type {ty} has no native generator")
+
+
+def _literals(node) -> List[Any]:
+    return [n.value for n in ast.walk(node) if isinstance(n, ast.Constant)]
+
+
+def falsify_typed(unit: str, prop: Optional[str], tries: int = 400) -> Dict[str, Any]:
+    from .contracts import REG
+    from .ctx import Ctx
+    from .replay import Builder
+    from .source import find_def
+    from .verify import Interp
+
+    fc = REG.fns[unit]
+    mi, node = find_def(unit)
+    local = unit.split(":")[1]
+    if "." in local:
+        raise CannotReplay("typed falsifier handles module level functions only")
+    names = [p.arg for p in node.args.posonlyargs + node.args.args + node.args.kwonlyargs]
+    for p in names:
+        if p not in fc.params:
+            raise CannotReplay(f"parameter {p} has no declared type")
+    fn = getattr(mi.module, local)
+    import asyncio
+
+    if asyncio.iscoroutinefunction(fn):
+        raise CannotReplay("typed falsifier handles synchronous functions only")
+    rng = random.Random(int(os.environ.get("VERIF_SEED", "0") or 0) * 7919 + 17)
+    clauses = [cl for cl in fc.ensures if not prop or not cl.props or prop in cl.props]
+    if not clauses:
+        raise CannotReplay("no postcondition to use as oracle")
+    B = Builder({})
+    ran = 0
+    for i in range(tries):
+        g = Gen(rng, _literals(node))
+        try:
+            args = {p: g.value(fc.params[p], p) for p in names}
+        except CannotReplay:
+            raise
+        ctx = Ctx([], unit)
+        interp = Interp(ctx, REG)
+        interp.unit_module = mi
+        interp.unit_name = local
+        pre_env = {p: B.reflect_value(v, interp) for p, v in args.items()}
+        try:
+            if not all(_concrete_bool(interp.spec_eval(cl, dict(pre_env), None, mi)) for cl in fc.requires):
+                continue
+        except Exception:
+            continue
+        import copy
+
+        real_args = copy.deepcopy(args)
+        try:
+            result = fn(**real_args)
+        except Exception as e:  # an exception is judged by the no-unexpected-exception obligation
+            continue
+        ran += 1
+        post_env = {p: B.reflect_value(v, interp) for p, v in real_args.items()}
+        post_env["result"] = B.reflect_value(result, interp)
+        for cl in clauses:
+            try:
+                v = _concrete_bool(interp.spec_eval(cl, dict(post_env), pre_env, mi))
+            except Exception:
+                continue
+            if v is False:
+                return {
+                    "clause_violated": True, "violated_clause": cl.name, "clause": cl.text, "tries": i + 1,
+                    "inputs": {k: repr(v_) for k, v_ in args.items()}, "result": repr(result),
+                    "how": "type-directed random inputs run on the real function; the clause evaluated concretely on the real result",
+                }
+    return {"clause_violated": False, "tries": tries, "executed": ran}
+
+
+def _concrete_bool(v):
+    import z3
+
+    from .sym import SymBool
+
+    if isinstance(v, bool):
+        return v
+    if isinstance(v, SymBool):
+        s = z3.simplify(v.e)
+        if z3.is_true(s):
+            return True
+        if z3.is_false(s):
+            return False
+        raise ValueError("not concrete")
+    return bool(v)
